@@ -527,7 +527,7 @@ func c14Mutations(rn *c14Runner, r *gen.Rng, corpus []c14Mod, n int) {
 	tries := 0
 	for i := 0; i < n; i++ {
 		m := gen.Pick(r, corpus)
-		if !rn.ctx.Thorough() && len(m.text) > 600 {
+		if (!rn.ctx.Thorough() && len(m.text) > 600) || len(m.text) > 2000 {
 			i--
 			tries++
 			if tries > 20*n {
@@ -801,13 +801,13 @@ func C14(ctx *core.Ctx) error {
 	ctx.Extra["corpus_modules"] = len(corpus)
 	c14Directed(rn, r.Fork(2))
 	c14Opener(rn, r.Fork(3))
-	c14Prefixes(rn, r.Fork(4), corpus, ctx.Scale(1500, 60000))
-	n := ctx.Scale(300, 20000)
+	c14Prefixes(rn, r.Fork(4), corpus, ctx.Scale(1500, 12000))
+	n := ctx.Scale(300, 3000)
 	if ctx.Tier == "search" {
-		n = 10000
+		n = 4000
 	}
 	c14Mutations(rn, r.Fork(5), corpus, n)
-	c14Random(rn, r.Fork(6), ctx.Scale(200, 10000))
+	c14Random(rn, r.Fork(6), ctx.Scale(200, 2000))
 	ctx.Extra["worker_restarts"] = rn.w.Restarts
 	return nil
 }
